@@ -960,6 +960,13 @@ impl<'a> Gen<'a> {
             4 => "{% increment c %}".to_string(),
             _ => format!("{{% capture d %}}{body}{{% endcapture %}}{{{{ d }}}}"),
         };
+        if self.rng.chance(1, 6) {
+            // a value computed from DATA through a filter argument on a literal entry, stored and
+            // printed: looks constant to a careless optimiser, is not
+            let lit = ["'x'", "2.5", "7", "'Abc def'"][self.rng.below(4)];
+            let f = ["append", "prepend", "plus", "times", "default"][self.rng.below(5)];
+            return format!("{{% assign c = {lit} | {f}: {imm} %}}[{{{{ c }}}}]");
+        }
         match self.rng.below(7) {
             // guarded by the loop position: not reached in the first iteration(s)
             0 | 1 => format!("{{% for {v} in {src} %}}{{% if forloop.index > {k} %}}{stateful}{{% endif %}}{{% endfor %}}"),
